@@ -146,6 +146,57 @@ def AllSourcesConditional(payload):
     return any(not (set(c['src']) & perm) for c in g.get('cc', []))
 
 
+def _derived_only(g, roots):
+    S = set(roots)
+    while True:
+        T = set(S)
+        for s, t in g.get('der', []):
+            if s in S:
+                T.add(t)
+        if T == S:
+            return S
+        S = T
+
+
+def _possible_nodes(g):
+    """Nodes that can exist in some architecture, not counting options whose own derivation closure contains a node
+    incompatible with a permanent node (such options are removed at initialisation)."""
+    perm = _derived_only(g, g.get('start', []))
+    inc = [set(p) for p in g.get('inc', [])]
+    S = set(perm)
+    while True:
+        T = set(S)
+        for c in g.get('ch', []):
+            if c['origin'] in S:
+                for o in c['opts']:
+                    clo = _derived_only(g, [o])
+                    if any((p & clo) and (p & perm) and not p <= clo for p in inc):
+                        continue
+                    T |= clo
+        T = _derived_only(g, T)
+        if T == S:
+            return S
+        S = T
+
+
+@trigger
+def ConnectionTargetNeedsSourceThatCannotExist(payload):
+    """A connection choice none of whose source connectors can exist in any architecture (they hang under options that
+    an incompatibility with a permanent node removes), while one of its targets can exist and needs a connection: the
+    selection encoder counts the architectures with that target as valid, materialising one shows it infeasible."""
+    g = _g(payload)
+    poss = _possible_nodes(g)
+    for c in g.get('cc', []):
+        if set(c['src']) & poss:
+            continue
+        for t in c['tgt']:
+            nd = g['nodes'][t-1]
+            needs = (min(nd['dl']) >= 1) if nd['dl'] else nd['dmin'] >= 1
+            if t in poss and needs:
+                return True
+    return False
+
+
 @trigger
 def NestedChoiceWithIncompatibility(payload):
     """An incompatibility pair exists and some selection choice originates below an option of another choice."""
